@@ -87,7 +87,16 @@ def run(ctx):
     for i, t in b.calls():
         for ai, ty in enumerate(t.get("arg_tys") or []):
             if "LayoutMetadata" in ty and "Builder" not in ty and i != gbb:
-                okv = P.is_verified_layout(t["args"][ai])
+                # a layout wrapped in Result / Option / ControlFlow (a helper's `Ok(layout)` on its way through `?`): the payload counts
+                tyn = ty.replace("&", "").replace("mut ", "").strip()
+                wrap = ()
+                if tyn.startswith("std::result::Result<") and tyn[len("std::result::Result<"):].lstrip().startswith("models::layout::metadata::LayoutMetadata"):
+                    wrap = (OK, F0)
+                elif tyn.startswith("std::option::Option<") and tyn[len("std::option::Option<"):].lstrip().startswith("models::layout::metadata::LayoutMetadata"):
+                    wrap = (SOME, F0)
+                elif tyn.startswith("std::ops::ControlFlow<") and tyn.rstrip(">").rstrip().endswith("models::layout::metadata::LayoutMetadata"):
+                    wrap = (("v", "Continue"), F0)
+                okv = P.is_verified_layout(t["args"][ai], (), wrap)
                 ctx.inst("C01/D2", "LayoutMetadata argument of %s" % callee_name(t), okv,
                          "argument %d %s" % (ai, "is the gate's Ok payload" if okv else "is NOT the gate's Ok payload: " + P.leaves_s(t["args"][ai])), t["at"])
     shared.check_verify_payload(ctx, "C01/D2")
